@@ -41,6 +41,9 @@ LEN_JOBS = [(el, n, where, W) for el in ('int', 'byte', 'bool', 'string')
             for n in ('-1', '-7', '-8', '0', '1', 'maxlen', 'maxlen+1', 'min', 'max', 'wrap1', 'wrap2', 'wrap3', 'wrap1+1')
             for where in ('local', 'callee', 'loop') for W in (2, 3, 4, 8)
             if not (n.startswith('wrap') and where != 'local' and W == 2)]
+# bool arrays whose length is within 7 of the largest signed word fit a big enough stack (ceil(n / 8) bytes) and must
+# then be allocated, not reported as stack_overflow: the size computation must not overflow on n + 7
+LEN_JOBS += [('bool', n, 'bigstack', W) for n in ('max-8', 'max-7', 'max-6', 'max-3', 'max-1', 'max') for W in (2, 3)]
 NLP_JOBS = [(shape, follow, kind) for shape in ('direct', 'in_for', 'in_while', 'in_if', 'in_else', 'in_elif',
                                                  'in_block', 'in_for_if', 'in_while_else', 'after_return',
                                                  'unreachable', 'none')
@@ -174,6 +177,8 @@ def idx_prog(acc, el, st, ix, W, L):
 def len_value(n, el, W):
     maxs = (1 << (8 * W - 1)) - 1
     maxlen = maxs if el in ('byte', 'bool') else maxs // W
+    if n.startswith('max-'):
+        return maxs - int(n[4:])
     if n.startswith('wrap'):
         j = int(n[4])
         v = -((-j << (8 * W)) // W) + (1 if n.endswith('+1') else 0)
@@ -193,6 +198,9 @@ def len_prog(el, n, where, W):
     else:
         funcs = []
         body = core
+        if where == 'bigstack':
+            last = idx('d', bin_('-', ln('d'), I(1)))
+            body = core + [setv(last, B(True)), write(last), setv(idx('d', I(0)), B(False)), write(idx('d', I(0)))]
     return prog([], funcs + [func('empty', '@is_you', [('int', 'fz')], *body)]), [str(len_value(n, el, W))]
 
 
@@ -247,7 +255,8 @@ def fixed_job(idx):
         el, n, where, W = LEN_JOBS[idx]
         p, argv = len_prog(el, n, where, W)
         v = len_value(n, el, W)
-        return f'length {el} n={n} {where} W={W}', p, argv, W, (None if v in (0, 1) else 'stack_overflow')
+        fits = v in (0, 1) or where == 'bigstack'
+        return f'length {el} n={n} {where} W={W}', p, argv, W, (None if fits else 'stack_overflow')
     idx -= len(LEN_JOBS)
     shape, follow, kind = NLP_JOBS[idx]
     p, argv = nlp_prog(shape, follow, kind)
@@ -289,6 +298,8 @@ def case(seed, idx, tier):
     # that the verdict does not depend on where exactly 'unrepresentably large' begins
     # for bool arrays (README silent; DESIGN section 7)
     ecfg = dict(W=W, stack=1200 if label.startswith('length') else 2500, max_steps=2_000_000)
+    if ' bigstack ' in label:
+        ecfg['stack'] = ((1 << (8 * W - 1)) >> 3) // W + 600
     found, ev = common.problems_of(p, argv, ecfg)
     common.add_counters(res, ev)
     res['key'] = digest(ev.src, argv, W)
